@@ -5,5 +5,5 @@ CONSTANTS
   Big = @BIG@
   Nrhs = @NRHS@
   Seed = @SEED@
-INVARIANTS LuLemma SolveLemma CholLemma QrLemma LarftLemma
+INVARIANTS LuLemma SolveLemma CholLemma QrLemma LarftLemma PivotLemma InverseLemma LsLemma TdLemma AuxLemma
 CHECK_DEADLOCK FALSE
